@@ -666,14 +666,24 @@ def translator_tie(ctx: "Ctx") -> None:
     violation ending in no-failing-input-found unless the correspondence of this run already produced a failing input."""
     import importlib
     from . import translate
-    modules = [importlib.import_module(f"harness.{f.stem}") for f in sorted((VERIF / "harness").glob("translate*.py"))]
+    modules = []
+    for f in sorted((VERIF / "harness").glob("translate*.py")):
+        try:
+            mod_ = importlib.import_module(f"harness.{f.stem}")
+            if isinstance(getattr(mod_, "PIECES", None), dict):
+                modules.append(mod_)
+        except Exception:  # noqa: BLE001  (a module under construction; its pieces then count as missing = not discharged)
+            pass
     pieces = TRANSLATOR_TIE.get(ctx.pid, [])
     if not pieces:
         return
     ctx.work.mkdir(parents=True, exist_ok=True)
 
     def one(piece):
-        mod = next(m for m in modules if piece in m.PIECES)
+        mod = next((m for m in modules if piece in m.PIECES), None)
+        if mod is None:
+            return {"piece": piece, "source": "?", "lemma": "?", "ok": False, "advisory": piece in ADVISORY_PIECES,
+                    "reason": "no translator module provides this piece"}
         _, lemma, where = mod.PIECES[piece]
         rec = {"piece": piece, "source": where, "lemma": lemma if isinstance(lemma, str) else list(lemma), "ok": False,
                "advisory": piece in ADVISORY_PIECES}
